@@ -29,10 +29,15 @@ theorem build_idem (g : GSt) (roots : List Spec) (imports : List (Spec × List D
     apply List.filter_eq_nil_iff.mpr
     intro r hrm
     simp [hr r hrm]
-  have h2 : imports.filter (fun p => !g.importReferrers.contains p.1) = [] := by
+  have h2 : (effImports o imports).filter (fun p => !g.importReferrers.contains p.1) = [] := by
     apply List.filter_eq_nil_iff.mpr
     intro p hp
-    simp [hi p hp]
+    have hp' : p ∈ imports := by
+      unfold effImports at hp
+      split at hp
+      · exact hp
+      · cases hp
+    simp [hi p hp']
   unfold buildMore
   simp only [h1, h2, List.foldl_nil, List.flatMap_nil, List.map_nil, List.append_nil]
   have hq : quiescent (freshBuilder o g) = true := by simp [quiescent, freshBuilder]
@@ -77,7 +82,7 @@ theorem buildMore_no_pending (g : GSt) (roots : List Spec) (imports : List (Spec
             load w o 0 { spec := s, range := some rng, spRef := none, isAsset := false, inDyn := st.inDyn,
                          isRoot := st.isResolvedRoot s, attr := none } st
           | _ => st) (fun d => ?_)
-        ((imports.filter fun p => !g.importReferrers.contains p.1).flatMap (·.2))).inv none _ h1
+        (((effImports o imports).filter fun p => !g.importReferrers.contains p.1).flatMap (·.2))).inv none _ h1
     rotate_left
     · constructor
       · intro ex st h
